@@ -401,6 +401,13 @@ class C14(Check):
                     c = _uniform(rng, 1)
                     ra, dec = np.full(m, c[0][0]), np.full(m, c[1][0])
                 w = None if s % 2 == 0 else rng.uniform(0.1, 10, m)
+                if s % 3 == 0:
+                    # right ascensions given outside [0, 2pi) (valid input): the mean must still be canonical
+                    ra = ra + rng.choice([-2 * np.pi, 2 * np.pi, -4 * np.pi], m)
+                if s % 7 == 0:
+                    m = 1
+                    ra, dec = ra[:1], dec[:1]
+                    w = None if w is None else w[:1]
                 refv, norm = sphere.mean_direction(ra, dec, w)
                 if float(norm) < 1e-3:
                     continue
